@@ -471,6 +471,7 @@ pub fn run(tier: Tier) -> i32 {
     rep.sample(json!({"rules": describe(&decode_list(37, 2)), "peer": PEERS[3], "random": "aabb0203.."}));
     rep.sample(json!({"rules": describe(&decode_list(101, 1)), "peer": PEERS[0], "random": null}));
     rep.assume("reference evaluator written from CONFIGURATION.md 'Rules Reference'; combinations it does not define (mask length != prefix length, empty pattern, random shorter than a masked pattern, IPv6 CIDR vs IPv4-mapped peer, undocumented action) are unconstrained");
+    super::cq::c04_into(&mut rep);
     rep.finish()
 }
 
